@@ -277,8 +277,9 @@ class _Actor:
                 and not op["hold_start"] and self.ml != 0:        # (a held start with a new max_length would be a legitimate new request)
             self.changed = True
             self.pr["controls_changed_in_flight"] += 1
-            if self.has_sp:
-                d["sp"] = f["sp"]
+            # start_position is NOT disturbed: the statement quantifies over start positions of a started
+            # generator, not over a position that changes while it streams (the code's 'first' follows the live
+            # input there; recorded in DESIGN 10 as outside the property, after an initial false alarm).
             if self.cfg["mlw"] and f["ml"] is not None and self.cfg["kind"] == "const":
                 d["ml"] = f["ml"]        # the serializer does not latch max_length: only start_position is disturbed there
         rdy = op["ready"][self.k % len(op["ready"])]
@@ -409,6 +410,10 @@ class _Actor:
         if self.first_word_stalled and idx == 0:
             pr["stall_on_first_word"] += 1
         if self.beyond:
+            if o["last"] and not o["first"] and self.got == 1:
+                # 'last' without 'first' is LUNA's empty-packet (ZLP) convention: a start at/after the end of the
+                # data is answered with an empty packet; it carries no bytes of the constant.
+                return False
             self.emitted += got_bytes
             if not _is_substring(self.emitted, self.data, self.bpw, self.cfg["endian"]) or \
                     (self.ml is not None and len(self.emitted) > self.ml):
